@@ -59,8 +59,12 @@ FoldL(op(_, _), base, seq) == FoldLeft(LAMBDA acc, x : TLCEval(op(acc, x)), base
 \* LAMBDA or a function constructor (an argument such as Decode(rec) would be recomputed once per
 \* character).  A variable bound in a set comprehension holds a value: Let1 / Let2 evaluate their
 \* arguments once and apply Op to the values.
-Let1(a, Op(_)) == CHOOSE r \in {Op(x) : x \in {a}} : TRUE
-Let2(a, b, Op(_, _)) == CHOOSE r \in {Op(x, y) : x \in {a}, y \in {b}} : TRUE
+\* (Not CHOOSE r \in {...} : TRUE: with a CHOOSE in its definition TLC no longer treats a
+\* constant definition that uses Let1 as constant-level and re-evaluates it at every use - the
+\* version table of MC_DeweyPairs was rebuilt for every cell, 1000 s instead of 20 s.  SetToSeq is
+\* evaluated in Java and returns the one element as a value.)
+Let1(a, Op(_)) == Head(SetToSeq({Op(x) : x \in {a}}))
+Let2(a, b, Op(_, _)) == Head(SetToSeq({Op(x, y) : x \in {a}, y \in {b}}))
 \* v[k] for a computed v.  (Writing Op(...)[k] makes TLC evaluate the whole of Op(...) in its
 \* "keep lazy" mode, in which nothing is cached: minutes instead of milliseconds on long inputs.)
 Nth(v, k) == Let1(v, LAMBDA x : x[k])
